@@ -135,36 +135,6 @@ func rulesRangeCode(p *Prog, r *Report) {
 		matchFn := glr
 		byLoopTest := false
 		searchFns := []*ssa.Function{glr}
-		// where each recorded position comes from: the loops of one function, or the results of one helper call
-		posSrc := map[string]string{}
-		argVal := map[*ssa.Parameter]ssa.Value{}
-		srcOf := func(v ssa.Value) string {
-			for i := 0; i < 6; i++ {
-				prm, ok := v.(*ssa.Parameter)
-				if !ok {
-					break
-				}
-				a, ok := argVal[prm]
-				if !ok {
-					break
-				}
-				v = a
-			}
-			switch t := v.(type) {
-			case *ssa.Extract:
-				if c, ok := t.Tuple.(*ssa.Call); ok && c.Call.StaticCallee() != nil && p.InModule(c.Call.StaticCallee()) {
-					return fmt.Sprintf("the results of the call at %s", p.pos(c.Pos()))
-				}
-			case *ssa.Call:
-				if t.Call.StaticCallee() != nil && p.InModule(t.Call.StaticCallee()) {
-					return fmt.Sprintf("the result of the call at %s", p.pos(t.Pos()))
-				}
-			}
-			if in, ok := v.(ssa.Instruction); ok && in.Parent() != nil {
-				return "the search loops of " + in.Parent().Name()
-			}
-			return "?"
-		}
 		{
 			visited := map[*ssa.Function]bool{glr: true}
 			var visit func(fn *ssa.Function, siteFn *ssa.Function, siteBlk *ssa.BasicBlock, d int)
@@ -185,7 +155,6 @@ func rulesRangeCode(p *Prog, r *Report) {
 							} else {
 								matchBlock, matchFn = b, fn
 							}
-							posSrc[k] = srcOf(t.Value)
 							got := qzp.prov(t.Value, 0)
 							okV := false
 							for _, w := range want[k] {
@@ -214,7 +183,6 @@ func rulesRangeCode(p *Prog, r *Report) {
 							for i, prm := range callee.Params {
 								if i < len(t.Call.Args) {
 									qzp.elemVar[prm] = descs[i]
-									argVal[prm] = t.Call.Args[i]
 								}
 							}
 							if hasLoop(callee) {
@@ -233,24 +201,6 @@ func rulesRangeCode(p *Prog, r *Report) {
 				}
 			}
 			visit(glr, nil, nil, 0)
-		}
-		// one search: the three positions describe one matching entry only if they come from the same loops
-		// (or the same helper call) — a family index found by a search of its own need not be the family the
-		// matching entry is in
-		{
-			srcs := map[string]bool{}
-			for _, k := range []string{lk.group, lk.version, lk.index} {
-				if sv, ok := posSrc[k]; ok {
-					srcs[sv] = true
-				}
-			}
-			if len(srcs) > 1 {
-				var l []string
-				for _, k := range []string{lk.group, lk.version, lk.index} {
-					l = append(l, fmt.Sprintf("location[%s] from %s", names[k], posSrc[k]))
-				}
-				probs = append(probs, "the recorded positions do not come from one search: "+strings.Join(l, ", "))
-			}
 		}
 		for k, n := range names {
 			if !seen[k] {
